@@ -714,6 +714,45 @@ func c01r4(rc *core.RC) {
 		rc.Touch("encoder.copyOpcode")
 		checkCopy(rc, "encoder", fd, opc.Type().(*types.Named), "encoder.copyOpcode")
 	}
+	// every other function of the package that makes an Opcode from the fields of another one (five or more elements
+	// of the form F: x.F) is a copy as well
+	if opc != nil {
+		for _, g := range p.Funcs("encoder") {
+			if g.Body == nil || g == fd {
+				continue
+			}
+			ginfo := p.Info(g)
+			copies := false
+			ast.Inspect(g.Body, func(m ast.Node) bool {
+				cl, ok := m.(*ast.CompositeLit)
+				if !ok {
+					return true
+				}
+				tv, has := ginfo.Types[cl]
+				if !has || !types.Identical(tv.Type, opc.Type()) {
+					return true
+				}
+				same := 0
+				for _, e := range cl.Elts {
+					if kv, isKV := e.(*ast.KeyValueExpr); isKV {
+						if id, isID := kv.Key.(*ast.Ident); isID {
+							if sel, isSel := core.Unparen(kv.Value).(*ast.SelectorExpr); isSel && sel.Sel.Name == id.Name {
+								same++
+							}
+						}
+					}
+				}
+				if same >= 5 {
+					copies = true
+				}
+				return true
+			})
+			if copies {
+				rc.Touch(p.FuncName(g))
+				checkCopy(rc, "encoder", g, opc.Type().(*types.Named), p.FuncName(g))
+			}
+		}
+	}
 	// Filter methods that rebuild their receiver
 	for _, fd := range p.Funcs("encoder") {
 		if fd.Recv == nil || fd.Name.Name != "Filter" || fd.Body == nil {
